@@ -878,7 +878,7 @@ def c09(run):
         if c in ('crash', 'hang'):
             run.fail({'tree': mt[:1500], 'variant': lab, 'answer': r[:200]}, 'running a syntax tree %s' % ('does not terminate' if c == 'hang' else 'crashes the interpreter'))
     # model-guided long histories: state carried across hundreds of different events inside ONE run
-    lh, counts = long_histories(rng, 16, 60 if run.tier == 'quick' else 400, tries=3)
+    lh, counts = long_histories(rng, 12 if run.tier == 'quick' else 16, 40 if run.tier == 'quick' else 200, tries=3)
     lreqs = [run_req(t, 'a line\nanother\n' * 50, steps=200000) for t in lh]
     lm, lim = run.tie(lreqs, proj=proj_run, functional=True, desc=lambda i: {'program': lh[i], 'section': 'long history'})
     for t, r in zip(lh, lim):
